@@ -7,6 +7,7 @@ import "bytes"
 // universe and all operations, so the planned history keeps its meaning. (Deterministic in the
 // case index: the planner's random stream is not touched.)
 func EmptyKeyVariant(pl *Plan, index int) bool {
+	BoundaryLengthVariant(pl, index)
 	if index%7 != 3 || len(pl.Universe) == 0 {
 		return false
 	}
@@ -20,6 +21,48 @@ func EmptyKeyVariant(pl *Plan, index int) bool {
 	for i := range pl.Ops {
 		if pl.Ops[i].K != nil && bytes.Equal(pl.Ops[i].K, victim) {
 			pl.Ops[i].K = empty
+		}
+	}
+	return true
+}
+
+// BoundaryLengthVariant rewrites every 7th plan (not the ones of EmptyKeyVariant) so that one key of
+// its universe is padded to a length at which a length prefix changes its width or a one-byte fast
+// path ends - exactly 127, 128, 129, 255 or 256 bytes - and the values written to it get such a
+// length too. Consistent over the universe and all operations; deterministic in the case index.
+func BoundaryLengthVariant(pl *Plan, index int) bool {
+	if index%7 != 5 || len(pl.Universe) == 0 {
+		return false
+	}
+	victim := append([]byte(nil), pl.Universe[index%len(pl.Universe)]...)
+	if len(victim) == 0 || len(victim) > 100 {
+		return false
+	}
+	l := []int{128, 127, 129, 255, 256}[index/7%5]
+	pad := func(b []byte) []byte {
+		out := append([]byte(nil), b...)
+		for len(out) < l {
+			out = append(out, 'p')
+		}
+		return out
+	}
+	long := pad(victim)
+	for _, k := range pl.Universe {
+		if bytes.Equal(k, long) {
+			return false
+		}
+	}
+	for i, k := range pl.Universe {
+		if bytes.Equal(k, victim) {
+			pl.Universe[i] = long
+		}
+	}
+	for i := range pl.Ops {
+		if pl.Ops[i].K != nil && bytes.Equal(pl.Ops[i].K, victim) {
+			pl.Ops[i].K = long
+			if pl.Ops[i].Kind == "set" && pl.Ops[i].V != nil && len(pl.Ops[i].V) > 0 && len(pl.Ops[i].V) < l {
+				pl.Ops[i].V = pad(pl.Ops[i].V)
+			}
 		}
 	}
 	return true
